@@ -465,6 +465,13 @@ class Program(object):
                     return frozenset(f(expr.args[0], module, cls, env))
                 if ref.name == 'builtins.tuple' and len(expr.args) == 1:
                     return tuple(f(expr.args[0], module, cls, env))
+                if ref.name == 'builtins.list' and len(expr.args) == 1:
+                    return list(f(expr.args[0], module, cls, env))
+                if ref.name == 'builtins.sorted' and len(expr.args) == 1 and not expr.keywords:
+                    try:
+                        return sorted(f(expr.args[0], module, cls, env))
+                    except TypeError:
+                        raise Unfoldable('sorted')
                 if ref.name == 'builtins.dict' and not expr.args:
                     return {kw.arg: f(kw.value, module, cls, env) for kw in expr.keywords}
             raise Unfoldable(ast.dump(expr)[:80])
@@ -475,6 +482,74 @@ class Program(object):
                 return v[i]
             except Exception:
                 raise Unfoldable('subscript')
+        if isinstance(expr, (ast.ListComp, ast.SetComp, ast.DictComp, ast.GeneratorExp)):
+            # comprehensions over foldable iterables (tables built from tables)
+            results = []
+
+            def bind(target, value, e_):
+                if isinstance(target, ast.Name):
+                    e_[target.id] = value
+                elif isinstance(target, (ast.Tuple, ast.List)):
+                    vals = list(value)
+                    if len(vals) != len(target.elts):
+                        raise Unfoldable('comprehension unpacking')
+                    for t_, v_ in zip(target.elts, vals):
+                        bind(t_, v_, e_)
+                else:
+                    raise Unfoldable('comprehension target')
+
+            def gen(i, e_):
+                if i == len(expr.generators):
+                    if isinstance(expr, ast.DictComp):
+                        results.append((f(expr.key, module, cls, e_), f(expr.value, module, cls, e_)))
+                    else:
+                        results.append(f(expr.elt, module, cls, e_))
+                    return
+                g = expr.generators[i]
+                it = f(g.iter, module, cls, e_)
+                if isinstance(it, dict):
+                    it = list(it)
+                if isinstance(it, frozenset):
+                    it = sorted(it, key=repr)
+                if not isinstance(it, (list, tuple)):
+                    raise Unfoldable('comprehension over %s' % type(it).__name__)
+                if len(results) > 5000:
+                    raise Unfoldable('comprehension too large')
+                for item in it:
+                    e2 = dict(e_ or {})
+                    bind(g.target, item, e2)
+                    ok = True
+                    for cond in g.ifs:
+                        c_ = f(cond, module, cls, e2)
+                        if not isinstance(c_, (bool, int, str, bytes, type(None), tuple, list, frozenset, dict)):
+                            raise Unfoldable('comprehension condition')
+                        if not c_:
+                            ok = False
+                            break
+                    if ok:
+                        gen(i + 1, e2)
+            gen(0, dict(env or {}))
+            if isinstance(expr, ast.DictComp):
+                return dict(results)
+            if isinstance(expr, ast.SetComp):
+                return frozenset(results)
+            return list(results) if isinstance(expr, ast.ListComp) else tuple(results)
+        if isinstance(expr, ast.Compare) and len(expr.ops) == 1:
+            l = f(expr.left, module, cls, env)
+            r = f(expr.comparators[0], module, cls, env)
+            op = expr.ops[0]
+            try:
+                if isinstance(op, ast.Eq):
+                    return l == r
+                if isinstance(op, ast.NotEq):
+                    return l != r
+                if isinstance(op, ast.In):
+                    return l in r
+                if isinstance(op, ast.NotIn):
+                    return l not in r
+            except Exception:
+                pass
+            raise Unfoldable('comparison')
         raise Unfoldable(type(expr).__name__)
 
     def _fold_ref(self, r, expr):
